@@ -85,6 +85,122 @@ def run(ctx: Ctx) -> None:
 
 
 # ------------------------------------------------------------------ D11.1
+class _EvalModel:
+    """evaluate() expanded path by path with every local inlined."""
+
+    def __init__(self, ctx: Ctx, fom: ClassInfo) -> None:
+        from sa.pathinline import Path, paths
+        from sa.srcmodel import inline_locals
+        self.ctx = ctx
+        self.fom = fom
+        self.ev = fom.methods["evaluate"]
+        init = fom.methods["__init__"]
+        #: field -> the value __init__ assigns (locals of __init__ inlined)
+        self.src_of: dict[str, str] = {}
+        for n in ast.walk(init.node):
+            if isinstance(n, (ast.Assign, ast.AnnAssign)) and \
+                    n.value is not None:
+                f = _self_attr(n.targets[0] if isinstance(n, ast.Assign)
+                               else n.target)
+                if f is not None:
+                    self.src_of[f] = ast.unparse(inline_locals(
+                        init.node, n.value)).replace(" ", "")
+        body = func_body(self.ev)
+        self.loop = next((s_ for s_ in body if isinstance(s_, ast.For)),
+                         None)
+        self.body_paths: list[Any] = []
+        self.pre: list[Any] = []
+        self.iter_src: ast.AST | None = None
+        if self.loop is None:
+            return
+        k = body.index(self.loop)
+        self.pre = paths(body[:k])
+        assigned = {n.id for n in ast.walk(self.loop) if isinstance(
+            n, ast.Name) and isinstance(n.ctx, ast.Store)}
+        from sa.pathinline import subst
+        for pp in self.pre:
+            env = {a: b for a, b in pp.env.items() if a not in assigned}
+            self.iter_src = subst(self.loop.iter, env)
+            for q in paths(self.loop.body, Path(env=env, guards=pp.guards,
+                                                objs=dict(pp.objs))):
+                if self.feasible(q.guards):
+                    self.body_paths.append(q)
+
+    # -------------------------------------------------------------- guards
+    def _not_none(self, e: ast.AST) -> bool | None:
+        if isinstance(e, ast.Constant) and e.value is None:
+            return False
+        a = _self_attr(e)
+        if a is not None and self._method(a) is not None:
+            return True
+        return None
+
+    def _method(self, attr: str) -> Any:
+        nm = attr
+        pre = "_" + self.fom.name.lstrip("_")
+        if nm.startswith(pre + "__"):
+            nm = nm[len(pre):]
+        return self.fom.methods.get(nm) or self.fom.methods.get(
+            mangle(self.fom.name, nm))
+
+    @staticmethod
+    def norm(test: ast.AST, truth: bool) -> tuple[str, bool]:
+        while isinstance(test, ast.UnaryOp) and isinstance(
+                test.op, ast.Not):
+            test, truth = test.operand, not truth
+        return ast.unparse(test), truth
+
+    def feasible(self, guards: tuple) -> bool:
+        seen: dict[str, bool] = {}
+        for test, truth in guards:
+            t, tr = test, truth
+            while isinstance(t, ast.UnaryOp) and isinstance(t.op, ast.Not):
+                t, tr = t.operand, not tr
+            if isinstance(t, ast.Compare) and len(t.ops) == 1 and \
+                    isinstance(t.ops[0], (ast.Is, ast.IsNot)):
+                sides = [t.left, t.comparators[0]]
+                other = next((x for x in sides if not (isinstance(
+                    x, ast.Constant) and x.value is None)), None)
+                has_none = any(isinstance(x, ast.Constant)
+                               and x.value is None for x in sides)
+                if has_none:
+                    nn = True if other is None and False else (
+                        self._not_none(other) if other is not None
+                        else False)
+                    if other is None:
+                        nn = False           # None is None
+                    if nn is not None:
+                        is_not = isinstance(t.ops[0], ast.IsNot)
+                        val = nn if is_not else not nn
+                        if val != tr:
+                            return False
+                        continue
+            key, pol = self.norm(t, tr)
+            if key in seen and seen[key] != pol:
+                return False
+            seen[key] = pol
+        return True
+
+    def has_guard(self, guards: tuple, field: str, truth: bool) -> bool:
+        for test, tr in guards:
+            key, pol = self.norm(test, tr)
+            t = ast.parse(key, mode="eval").body
+            a = _self_attr(t)
+            if a is not None and (a == field or a.endswith(field)) and \
+                    pol == truth:
+                return True
+        return False
+
+    def is_append_call(self, c: ast.AST) -> bool:
+        if not isinstance(c, ast.Call):
+            return False
+        a = _self_attr(c.func)
+        if a is None:
+            return False
+        m = self._method(a)
+        return m is not None and m.name == "__append"
+
+
 def _write_set(ctx: Ctx, fom: ClassInfo, le: ClassInfo) -> None:
     repo = ctx.repo
     ev = fom.methods["evaluate"]
@@ -141,9 +257,6 @@ def _write_set(ctx: Ctx, fom: ClassInfo, le: ClassInfo) -> None:
                             nm = nm[len(pre):]
                         tgt = c.methods.get(nm) or c.methods.get(
                             mangle(c.name, nm))
-                        if tgt is not None and tgt.name == "__append":
-                            writes.append((n, "direct call of __append "
-                                              "(bypasses the collect flag)"))
                         if tgt is not None and tgt not in seen:
                             seen.add(tgt)
                             reached.append(tgt)
@@ -167,32 +280,26 @@ def _write_set(ctx: Ctx, fom: ClassInfo, le: ClassInfo) -> None:
            "carries state from one evaluation to the next",
            construct="write set of evaluate")
     ctx.count("methods_reached_from_evaluate", len(seen))
-    # the collector is the appender only when collecting
-    ok = False
-    for n in ast.walk(ev.node):
-        if isinstance(n, (ast.Assign, ast.AnnAssign)) and isinstance(
-                n.value, ast.IfExp):
-            v = n.value
-            if _self_attr(v.body) == "__append" and _self_attr(
-                    v.test) == "__collect" and isinstance(
-                    v.orelse, ast.Constant) and v.orelse.value is None:
-                ok = True
-                coll = (n.targets[0] if isinstance(n, ast.Assign)
-                        else n.target).id
-                # every call of the collector is guarded by `is not None`
-                for c in ast.walk(ev.node):
-                    if isinstance(c, ast.Call) and isinstance(
-                            c.func, ast.Name) and c.func.id == coll:
-                        guarded = any(
-                            isinstance(i, ast.If) and c in list(
-                                ast.walk(ast.Module(body=i.body,
-                                                    type_ignores=[])))
-                            and ast.unparse(i.test) == f"{coll} is not None"
-                            for i in ast.walk(ev.node))
-                        ok = ok and guarded
+    # the appender runs only when collecting: on every path through an
+    # iteration, a call of __append (however it is named locally) sits
+    # behind a test of the collect flag
+    em = _EvalModel(ctx, fom)
+    n_app = 0
+    ok = bool(em.body_paths)
+    for q in em.body_paths:
+        for e in q.events:
+            if e.kind == "expr" and em.is_append_call(e.value):
+                n_app += 1
+                if not em.has_guard(e.guards, "__collect", True):
+                    ok = False
+            elif e.kind == "expr" and isinstance(
+                    e.value, ast.Call) and isinstance(
+                    e.value.func, ast.Constant):
+                ok = False            # calling None
+    ok = ok and n_app > 0
     ctx.ob("D11.1", ev, ev.node, ok,
-           "training data is appended only through `__append if __collect "
-           "else None`, and only when that is not None" if ok else
+           f"training data is appended only through __append ({n_app} "
+           "call paths), and only when the collect flag is set" if ok else
            "the data collector is not tied to the collect flag",
            construct="collector guarded by collect flag")
     # helpers are module level functions without global state
@@ -274,7 +381,6 @@ def _blocks(node: ast.AST) -> list[list[ast.stmt]]:
 # ------------------------------------------------------------------ D11.3
 def _results_written(ctx: Ctx, fom: ClassInfo) -> None:
     ev = fom.methods["evaluate"]
-    init = fom.methods["__init__"]
     loop = next((s for s in func_body(ev) if isinstance(s, ast.For)), None)
     ctx.need(loop is not None, "evaluate: loop over the training cases")
     ok_iter = isinstance(loop.iter, ast.Call) and ast.unparse(
@@ -312,14 +418,15 @@ def _results_written(ctx: Ctx, fom: ClassInfo) -> None:
             a = _self_attr(n.value)
             if isinstance(tg, ast.Name) and a:
                 alias[tg.id] = a
-    size_ok = False
-    for n in ast.walk(init.node):
-        if isinstance(n, (ast.Assign, ast.AnnAssign)) and _self_attr(
-                n.targets[0] if isinstance(n, ast.Assign) else n.target) \
-                == alias.get(res_name or "", "?") and n.value is not None:
-            src = ast.unparse(n.value).replace(" ", "")
-            size_ok = src.startswith("np.empty(len(self.") and \
-                alias.get(src_name, "?") in src
+    em = _EvalModel(ctx, fom)
+    res_field = alias.get(res_name or "", "?")
+    src_field = alias.get(src_name, "?")
+    rs = em.src_of.get(res_field, "")
+    # one cell per training case: np.empty(len(<the value that also becomes
+    # the training field>)[, dtype])
+    size_ok = rs.startswith("np.empty(len(") and src_field in em.src_of \
+        and (rs.startswith(f"np.empty(len({em.src_of[src_field]})")
+             or rs.startswith(f"np.empty(len(self.{src_field})"))
     ok = ok_iter and store is not None and not brk and size_ok
     ctx.ob("D11.3", ev, store or loop, ok,
            f"`{res_name}[{ivar}]` is written unconditionally in every "
@@ -656,17 +763,11 @@ def _assembly(ctx: Ctx, fom: ClassInfo, le: ClassInfo) -> None:
     """evaluate() computes the documented value from the documented inputs."""
     repo = ctx.repo
     ev = fom.methods["evaluate"]
-    init = fom.methods["__init__"]
     body = func_body(ev)
     xparam = ev.params[1]
-    # ---- field provenance: self.__f = instance.<path>
-    src_of: dict[str, str] = {}
-    for n in ast.walk(init.node):
-        if isinstance(n, (ast.Assign, ast.AnnAssign)) and n.value is not None:
-            f = _self_attr(n.targets[0] if isinstance(n, ast.Assign)
-                           else n.target)
-            if f is not None:
-                src_of[f] = ast.unparse(n.value).replace(" ", "")
+    # ---- field provenance: self.__f = instance.<path> (locals of
+    # __init__ looked through)
+    src_of: dict[str, str] = _EvalModel(ctx, fom).src_of
     # ---- locals of evaluate: name -> self field
     local: dict[str, str] = {}
     for s in body:
@@ -758,74 +859,137 @@ def _assembly(ctx: Ctx, fom: ClassInfo, le: ClassInfo) -> None:
            "vector being evaluated, and scored with the instance's state "
            "dimensions and gamma" if not problems else "; ".join(problems),
            construct="arguments of the simulation")
-    # ---- per-case guard polarity
-    cfg = CFG(ev.node)
-    head = next(n for n in cfg.nodes if n.ast is loop and n.kind == "for")
-    fails = [n for n in cfg.nodes if n.kind == "stmt" and isinstance(
-        n.ast, ast.Return) and repo.const(ev.module, n.ast.value) == 1e200
-        and any(n.ast is x for x in ast.walk(loop))]
-    chains = [n for n in cfg.nodes if n.kind == "test" and isinstance(
-        n.ast, ast.Compare) and len(n.ast.ops) == 2 and any(
-        n.ast is x for x in ast.walk(loop))]
+    # ---- per-case guard polarity (path model): an iteration ends the
+    # evaluation with 1e200 exactly when its J is outside [0, 1e100] - the
+    # comparison must be NaN-safe (a NaN makes every comparison False)
+    from sa.symterm import c_and, c_not, c_or
+    em = _EvalModel(ctx, fom)
     g_problems: list[str] = []
-    good = [c for c in chains if repo.const(ev.module, c.ast.left) == 0.0
-            and repo.const(ev.module, c.ast.comparators[1]) == 1e100
-            and all(isinstance(o, ast.LtE) for o in c.ast.ops)]
-    if len(good) != 1 or len(fails) != 1:
-        g_problems.append("no single per-case test 0.0 <= J <= 1e100 with "
-                          "a `return 1e200`")
+    jcall_src = None
+    jcalls = set()
+    for q in em.body_paths:
+        for e in q.events:
+            if e.kind == "store" and isinstance(e.extra, ast.Call) and \
+                    isinstance(e.extra.func, ast.Name) and repo.resolve(
+                    ev.module, e.extra.func.id) is ode_mod.funcs.get(
+                    "j_from_ode"):
+                jcalls.add(ast.unparse(e.extra))
+    if len(jcalls) == 1:
+        jcall_src = next(iter(jcalls))
     else:
-        c = good[0]
-        zname = ast.unparse(c.ast.comparators[0])
-        # z is the value stored for this case and returned by j_from_ode
-        zdef = [s for s in ast.walk(loop) if isinstance(s, ast.Assign)
-                and jf and s.value is jf[0]]
-        if not zdef or zname not in [ast.unparse(t) for t in
-                                     zdef[0].targets]:
-            g_problems.append(f"the tested value `{zname}` is not the "
-                              "figure of merit of this case")
-        for m, lb in c.succ:
-            if lb is True and (m is fails[0] or cfg.can_reach_avoiding(
-                    m, fails[0], lambda n: n is head)):
-                g_problems.append("a case with 0 <= J <= 1e100 leads to "
-                                  "the failure value")
-            if lb is False and (m is head or cfg.can_reach_avoiding(
-                    m, head, lambda n: False)):
+        g_problems.append("the figure of merit of a case is not stored "
+                          "once per iteration")
+    sev = make_evaluator(repo, ev)
+    J = Poly.var("J")
+
+    def reject_cond(guards: tuple) -> tuple | None:
+        """The guards on J of a path as one condition (J = the stored
+        figure of merit), or None if a guard mentions something else."""
+        import copy as _copy
+        cs = []
+        for tst, truth in guards:
+            txt = ast.unparse(tst)
+            if jcall_src is None or jcall_src not in txt:
+                continue
+
+            class R(ast.NodeTransformer):
+                def visit_Call(self, n: ast.Call) -> ast.AST:
+                    if ast.unparse(n) == jcall_src:
+                        return ast.Name(id="J$", ctx=ast.Load())
+                    return self.generic_visit(n)
+            t2 = ast.fix_missing_locations(R().visit(_copy.deepcopy(tst)))
+            env = Env()
+            env.vars["J$"] = J
+            try:
+                c = sev.cond(env, t2)
+            except Unsupported:
+                return None
+            cs.append(c if truth else c_not(c))
+        return c_and(*cs) if cs else ("true",)
+
+    def nan_safe(tst: ast.AST, reject_when: bool) -> bool:
+        """Every comparison must have to be False for the rejection."""
+        if isinstance(tst, ast.UnaryOp) and isinstance(tst.op, ast.Not):
+            return nan_safe(tst.operand, not reject_when)
+        if isinstance(tst, ast.BoolOp):
+            return all(nan_safe(v, reject_when) for v in tst.values)
+        if isinstance(tst, ast.Compare):
+            return reject_when is False
+        return True
+    in_range = ("and", ("le", Poly.const(0), J),
+                ("le", J, Poly.const(10 ** 100)))
+
+    def sat(c: tuple) -> bool:
+        """Is `c` satisfiable?  Exact over the reals: all weak orderings of
+        J against the two constants."""
+        from sa import ordenum
+        try:
+            return any(m.cond(c) for m in ordenum.enumerate_models(
+                [J, Poly.const(0), Poly.const(10 ** 100)], integer=False))
+        except Unsupported:
+            return True
+    rej_conds = []
+    n_fail = 0
+    for q in em.body_paths:
+        rets = [e for e in q.events if e.kind == "return"]
+        c = reject_cond(q.guards)
+        if c is None:
+            g_problems.append("a per-case test is not a comparison of the "
+                              "figure of merit with constants")
+            continue
+        if rets:
+            n_fail += 1
+            if repo.const(ev.module, rets[0].value) != 1e200:
+                g_problems.append("an iteration ends the evaluation with "
+                                  "a value other than 1e200")
+            rej_conds.append(c)
+            for tst, truth in q.guards:
+                if jcall_src is not None and jcall_src in ast.unparse(tst) \
+                        and not nan_safe(tst, truth):
+                    g_problems.append(
+                        "the per-case test lets a NaN figure of merit "
+                        "pass (a comparison that must be True to reject)")
+        elif q.ended is None:
+            # a continuing case must be inside the range
+            if sat(c_and(c, c_not(in_range))):
                 g_problems.append("a case outside [0, 1e100] does not stop "
                                   "the evaluation")
+    if not rej_conds:
+        g_problems.append("no single per-case test 0.0 <= J <= 1e100 with "
+                          "a `return 1e200`")
+    elif sat(c_and(c_or(*rej_conds), in_range)):
+        g_problems.append("a case with 0 <= J <= 1e100 leads to the "
+                          "failure value")
     ctx.ob("D11.7", ev, loop, not g_problems,
            "a training case outside [0, 1e100] (or NaN) ends the evaluation "
            "with 1e200; all others continue" if not g_problems else
-           "; ".join(g_problems), construct="per-case range test")
+           "; ".join(dict.fromkeys(g_problems)),
+           construct="per-case range test")
     # ---- every case that continues is recorded when collecting
-    colls = [n for n in cfg.nodes if n.kind == "stmt" and any(
-        isinstance(c.func, ast.Name) and c.func.id == "collector"
-        for c in calls_in(n.ast))]
-    ctests = [n for n in cfg.nodes if n.kind == "test" and
-              "collector" in ast.unparse(n.ast)]
-    rec_ok = False
-    if len(colls) == 1 and ctests:
-        call = next(c for c in calls_in(colls[0].ast)
-                    if isinstance(c.func, ast.Name)
-                    and c.func.id == "collector")
-        inner = call.args[0] if call.args else None
-        df = ode_mod.funcs.get("diff_from_ode")
+    rec_ok = bool(em.body_paths)
+    n_rec = 0
+    df = ode_mod.funcs.get("diff_from_ode")
+    for q in em.body_paths:
+        if q.ended is not None or not em.has_guard(
+                q.guards, "__collect", True):
+            continue
+        apps = [e for e in q.events if e.kind == "expr"
+                and em.is_append_call(e.value)]
+        if len(apps) != 1 or len(apps[0].value.args) != 1:
+            rec_ok = False
+            continue
+        inner = apps[0].value.args[0]
+        jc = ast.parse(jcall_src, mode="eval").body if jcall_src else None
         arg_ok = isinstance(inner, ast.Call) and isinstance(
             inner.func, ast.Name) and repo.resolve(
-            ev.module, inner.func.id) is df and [
-            ast.unparse(x) for x in inner.args] == [ode_var, sd_var]
-        # from the "collector is not None" outcome the next round is only
-        # reached through the call
-        t = ctests[0]
-        is_not = isinstance(t.ast, ast.Compare) and isinstance(
-            t.ast.ops[0], ast.IsNot)
-        lab = True if is_not else False
-        thru = all(m is colls[0] or not (
-            m is head or cfg.can_reach_avoiding(
-                m, head, lambda n: n is colls[0]))
-            for m, lb in t.succ if lb is lab)
-        rec_ok = arg_ok and thru
-    ctx.ob("D11.7", ev, colls[0].ast if colls else loop, rec_ok,
+            ev.module, inner.func.id) is df and jc is not None and len(
+            inner.args) == 2 and not inner.keywords and [
+            ast.unparse(x) for x in inner.args] == [
+            ast.unparse(x) for x in jc.args[:2]]
+        rec_ok = rec_ok and arg_ok
+        n_rec += 1
+    rec_ok = rec_ok and n_rec > 0
+    ctx.ob("D11.7", ev, loop, rec_ok,
            "while collecting, every training case that passes its range "
            "test hands diff_from_ode(simulation, state_dim) to the collector "
            "before the next case" if rec_ok else
